@@ -33,6 +33,7 @@ type Driver struct {
 	Events      int
 	Interesting int
 	Proofs      int
+	Due         int
 	Rejected    int
 	Blocks      int
 	MaxHeight   int64
@@ -53,7 +54,7 @@ func (d *Driver) Close() {}
 func (d *Driver) Finish() map[string]interface{} {
 	return map[string]interface{}{
 		"traces": d.Traces, "events": d.Events, "interesting": d.Interesting,
-		"proofs_accepted_by_service": d.Proofs, "proof_requests_refused_by_service": d.Rejected, "blocks": d.Blocks,
+		"proofs_due": d.Due, "proofs_produced_by_service": d.Proofs, "proof_requests_refused_by_service": d.Rejected, "blocks": d.Blocks,
 		"max_height": d.MaxHeight, "max_results_in_store": d.MaxResults, "iavl_path_depths": d.PathDepths,
 		"validator_set_sizes": d.ValSizes, "commit_rounds": d.Rounds, "mounted_stores": d.Stores,
 	}
@@ -296,7 +297,7 @@ func (r *run) block(st tf.M) {
 }
 
 // proofStep asks the real proof service for one proof and logs it with the trusted observations.
-// Returns true when the service produced a proof.
+// Returns true when a proof was due (committed block in the provable range, value stored).
 func (r *run) proofStep(st tf.M) bool {
 	n := r.n
 	kind := tf.Str(st, "kind", "result")
@@ -319,6 +320,7 @@ func (r *run) proofStep(st tf.M) bool {
 	var items []item
 	var br proof.BlockRelayProof
 	var bh uint64
+	var evmBz []byte
 	ok, detail := false, ""
 	func() {
 		defer func() {
@@ -335,6 +337,7 @@ func (r *run) proofStep(st tf.M) bool {
 				return
 			}
 			p := res.Result.Proof
+			evmBz = res.Result.EvmProofBytes
 			items, br, bh = []item{resultItem(p.OracleDataProof)}, p.BlockRelayProof, p.BlockHeight
 		case "multi":
 			res, err := proof.NewProofServer(cctx.WithHeight(h), config.Config{}).MultiProof(context.Background(), &proof.MultiProofRequest{RequestIds: rids})
@@ -343,6 +346,7 @@ func (r *run) proofStep(st tf.M) bool {
 				return
 			}
 			p := res.Result.Proof
+			evmBz = res.Result.EvmProofBytes
 			for _, od := range p.OracleDataMultiProof {
 				items = append(items, resultItem(od))
 			}
@@ -354,6 +358,7 @@ func (r *run) proofStep(st tf.M) bool {
 				return
 			}
 			p := res.Result.Proof
+			evmBz = res.Result.EvmProofBytes
 			items = []item{{version: p.CountProof.Version, paths: p.CountProof.MerklePaths, count: p.CountProof.Count, isCount: true}}
 			br, bh = p.BlockRelayProof, p.BlockHeight
 		}
@@ -439,15 +444,28 @@ func (r *run) proofStep(st tf.M) bool {
 			"cv":   tf.M{"prefix": hx(cv.SignedDataPrefix), "suffix": hx(cv.SignedDataSuffix)},
 			"sigs": sigs,
 		}
+		// what the contract would receive: the ABI bytes, decoded by go-ethereum
+		o["evm"] = decodeEvm(kind, evmBz)
 	} else {
 		r.d.Rejected++
 		o["p"] = tf.M{"present": false}
+		o["evm"] = tf.M{"present": false}
 		o["class"] = classOf(detail)
 	}
 	s["signer"] = signer
 	r.d.W.Step("Proof", a, o, s)
 	r.d.Events++
-	return ok
+	// "due": an input for which the property promises a proof (whether or not the service delivered one)
+	due := avail
+	for _, m := range stored {
+		if m["present"] != true {
+			due = false
+		}
+	}
+	if due {
+		r.d.Due++
+	}
+	return due
 }
 
 func classOf(detail string) string {
@@ -536,4 +554,3 @@ func (it item) log() tf.M {
 		"status": int(r.ResolveStatus), "result": hx(r.Result)}
 	return m
 }
-
